@@ -313,6 +313,43 @@ func c16Helpers(c *core.Ctx, k *core.Case) {
 	}
 	mtu := uint16(r.Uint32())
 	var want []pcoUnit
+	mode := 0
+	if len(k.I) > 1 {
+		mode = int(k.I[1])
+	}
+	reqUnits := func() []pcoUnit {
+		var us []pcoUnit
+		for n := r.Range(1, 6); n > 0; n-- {
+			u := pcoUnit{id: []uint16{0x000d, 0x0003, 0x000a, 0x000c, 0x0010, 0x0001, 0x8021}[r.Intn(7)]}
+			if r.Chance(1, 3) {
+				u.val = r.Bytes([]int{1, 2, 4, 16, 3}[r.Intn(5)])
+			}
+			us = append(us, u)
+		}
+		return us
+	}
+	if mode&2 != 0 {
+		// a recycled object: it parsed other options before and its list was cut back to
+		// length 0 (the units stay in the array behind the list)
+		old := reqUnits()
+		for i := range old {
+			if len(old[i].val) == 0 {
+				old[i].val = r.Bytes(r.Range(1, 8))
+			}
+		}
+		_ = p.UnMarshal(pcoRef(old))
+		p.ProtocolOrContainerList = p.ProtocolOrContainerList[:0]
+	}
+	if mode&1 != 0 {
+		// the object first parses the peer's request (mostly empty units: "please send me ...")
+		// and is then completed with the helpers
+		req := reqUnits()
+		if err := p.UnMarshal(pcoRef(req)); err != nil {
+			c.Fail(k, "pco-helper-error", "a well-formed request list does not parse: "+err.Error())
+			return
+		}
+		want = append(want, req...)
+	}
 	p.AddDNSServerIPv4AddressRequest()
 	want = append(want, pcoUnit{0x000d, nil})
 	p.AddDNSServerIPv6AddressRequest()
@@ -336,6 +373,9 @@ func c16Helpers(c *core.Ctx, k *core.Case) {
 		c.Fail(k, "pco-helper-layout", fmt.Sprintf("list built with the Add* helpers marshals to %s, TS 24.008 identifiers and raw contents give %s", hx(got), hx(w)))
 	}
 	back := nasConvert.NewProtocolConfigurationOptions()
+	if mode != 0 {
+		c.Count("helpers_on_parsed_or_recycled_object", 1)
+	}
 	if err := back.UnMarshal(p.Marshal()); err != nil || len(back.ProtocolOrContainerList) != len(want) {
 		c.Fail(k, "pco-helper-roundtrip", fmt.Sprintf("a list built with the Add* helpers does not parse back: %v, %d of %d units (bytes %s)", err, len(back.ProtocolOrContainerList), len(want), hx(p.Marshal())))
 	}
@@ -420,7 +460,7 @@ func init() {
 					c.Do(kp)
 					c.NonTrivial(kp.Hash())
 					if i%8 == 0 {
-						kh := &core.Case{Oracle: "pco-helpers", Target: "nasConvert.ProtocolConfigurationOptions.Add*", I: []int64{int64(c.R.Uint64() >> 1)}}
+						kh := &core.Case{Oracle: "pco-helpers", Target: "nasConvert.ProtocolConfigurationOptions.Add*", I: []int64{int64(c.R.Uint64() >> 1), int64(i / 8 % 4)}}
 						c.Do(kh)
 						c.NonTrivial(kh.Hash())
 					}
